@@ -37,6 +37,19 @@
 (*                  the closest point of an element lies in its bounds     *)
 (* and C16.Closest also demands that the returned point lies inside the    *)
 (* bounds of the returned element.                                         *)
+(*                                                                         *)
+(* Round 5. VALUE CLASSES: a query may be the IEEE respelling of another    *)
+(* query of the same batch (negative zero components, a subnormal added to  *)
+(* the radius); entry.tw names the twin entry (0 = none). The reals are the *)
+(* same, so                                                                 *)
+(*   C16.ValueClass  facts and answer of the entry are those of its twin    *)
+(* and set-query entries echo the query integers (q), from which the model  *)
+(* computes its OWN scan over the lattice bounds of the tree line           *)
+(* (SpatialIndex!PtBoxRef / RangeBoxRef / RayBoxRef, three-valued):         *)
+(*   C16.ContainRef / C16.RangeRef / C16.RayRef  the library's scan and the *)
+(*                  index's answer contain every MUST and no NOT element    *)
+(* An entry without tw / q, or with a twin outside the batch, is ill-formed *)
+(* (Harness.Shape) and is never dereferenced.                               *)
 (***************************************************************************)
 EXTENDS SpatialIndex, TLC, Json
 
@@ -82,6 +95,16 @@ Tree ==
           /\ ebs' = IF built /\ shapeOK THEN ln.eb ELSE <<>>
     /\ l' = l + 1
 
+\* ---- round 5: twins and model-side references ----
+HasF(e, f) == f \in DOMAIN e
+TwinShape(i) == HasF(B[i], "tw") /\ (B[i].tw = 0 \/ (B[i].tw \in DOMAIN B /\ B[i].tw # i /\ HasF(B[B[i].tw], "tw")))
+\* same(a, b): the compared parts of entry a and of its twin b are equal
+TwinOK(i, same(_, _)) == TwinShape(i) /\ (B[i].tw = 0 \/ same(B[i], B[B[i].tw]))
+SameSet(a, b) == Range(a) = Range(b)
+QShape(i, len) == HasF(B[i], "q") /\ Len(B[i].q) = len
+\* ref(q, box) over the bounds of the current tree
+RefOf(ref(_, _), i) == [e \in 1..n |-> ref(B[i].q, ebs[e])]
+
 \* every fact list talks about the n elements of the current tree
 FactsN(s) == Len(s) = n
 Ids(s) == Range(s) \subseteq 1..n
@@ -99,43 +122,58 @@ ScanInBounds(i) == HaveBounds => \A e \in 1..n : FxIn(B[i].cp[e], ebs[e])
 
 Closest ==
     /\ Line.k = "closest"
-    /\ Report([p \in {"C16.Closest", "C16.ScanAgree", "Harness.NaN", "Harness.Shape"} |->
-          CASE p = "C16.Closest" ->
+    /\ Report([p \in {"C16.Closest", "C16.ScanAgree", "C16.ValueClass", "Harness.NaN", "Harness.Shape"} |->
+          CASE p = "C16.ValueClass" ->
+                 Fails(LAMBDA i : ~TwinShape(i) \/ TwinOK(i, LAMBDA a, b : a.d2 = b.d2 /\ a.cp = b.cp /\ a.rp = b.rp))
+            [] p = "C16.Closest" ->
                  Fails(LAMBDA i : Ran(i) /\ (~Finite(i) \/ ~FactsN(B[i].d2) \/
                         (/\ Answered(i) /\ ClosestOK(B[i].d2, B[i].cp, B[i].ri, B[i].rp)
                          /\ HaveBounds => FxIn(B[i].rp, ebs[B[i].ri]))))
             [] p = "C16.ScanAgree" ->
                  Fails(LAMBDA i : ~Finite(i) \/ ~FactsN(B[i].d2) \/ ~FactsN(B[i].cp) \/ (MeshScanOK(i) /\ ScanInBounds(i)))
             [] p = "Harness.NaN" -> Fails(Finite)
-            [] OTHER -> Fails(LAMBDA i : FactsN(B[i].d2) /\ FactsN(B[i].cp))])
+            [] OTHER -> Fails(LAMBDA i : FactsN(B[i].d2) /\ FactsN(B[i].cp) /\ TwinShape(i))])
     /\ UNCHANGED <<n, tree, ebs>> /\ l' = l + 1
 
-SetQuery(kind, pred) ==
+\* the scan (hit) and the answer (res) respect the model's own scan over the lattice bounds
+RefOK(ref(_, _), i, len) ==
+    ~HaveBounds \/ ~QShape(i, len) \/ (RefAgrees(RefOf(ref, i), B[i].hit) /\ (Ran(i) => RefAgrees(RefOf(ref, i), B[i].res)))
+SetTwin(i) == ~TwinShape(i) \/ TwinOK(i, LAMBDA a, b : SameSet(a.hit, b.hit) /\ SameSet(a.res, b.res))
+
+SetQuery(kind, pred, refpred, ref(_, _), qlen) ==
     /\ Line.k = kind
-    /\ Report([p \in {pred, "Harness.Shape"} |->
-          IF p = pred THEN Fails(LAMBDA i : Ran(i) /\ SetAgrees(B[i].res, B[i].hit))
-          ELSE Fails(LAMBDA i : Ids(B[i].hit))])
+    /\ Report([p \in {pred, refpred, "C16.ValueClass", "Harness.Shape"} |->
+          CASE p = pred -> Fails(LAMBDA i : Ran(i) /\ SetAgrees(B[i].res, B[i].hit))
+            [] p = refpred -> Fails(LAMBDA i : RefOK(ref, i, qlen))
+            [] p = "C16.ValueClass" -> Fails(SetTwin)
+            [] OTHER -> Fails(LAMBDA i : Ids(B[i].hit) /\ TwinShape(i) /\ QShape(i, qlen))])
     /\ UNCHANGED <<n, tree, ebs>> /\ l' = l + 1
 
 Ray ==
     /\ Line.k = "ray"
-    /\ Report([p \in {"C16.Ray", "C16.Traverse", "Harness.Shape"} |->
+    /\ Report([p \in {"C16.Ray", "C16.Traverse", "C16.RayRef", "C16.ValueClass", "Harness.Shape"} |->
           CASE p = "C16.Ray" -> Fails(LAMBDA i : Ran(i) /\ SetAgrees(B[i].res, B[i].hit))
             [] p = "C16.Traverse" -> Fails(LAMBDA i : Ran(i) /\ SetAgrees(B[i].trav, B[i].hit))
-            [] OTHER -> Fails(LAMBDA i : Ids(B[i].hit))])
+            [] p = "C16.RayRef" ->
+                 Fails(LAMBDA i : RefOK(RayBoxRef, i, 11) /\ (~HaveBounds \/ ~QShape(i, 11) \/ ~Ran(i) \/ RefAgrees(RefOf(RayBoxRef, i), B[i].trav)))
+            [] p = "C16.ValueClass" ->
+                 Fails(LAMBDA i : ~TwinShape(i) \/ TwinOK(i, LAMBDA a, b : SameSet(a.hit, b.hit) /\ SameSet(a.res, b.res) /\ SameSet(a.trav, b.trav)))
+            [] OTHER -> Fails(LAMBDA i : Ids(B[i].hit) /\ TwinShape(i) /\ QShape(i, 11))])
     /\ UNCHANGED <<n, tree, ebs>> /\ l' = l + 1
 
 \* narrowing traversal: right nearest hit, and only elements whose bounds the
 \* ray crosses inside the initial range are offered to the iterator, once each
 Near ==
     /\ Line.k = "near"
-    /\ Report([p \in {"C16.Nearest", "Harness.NaN", "Harness.Shape"} |->
-          CASE p = "C16.Nearest" ->
+    /\ Report([p \in {"C16.Nearest", "C16.ValueClass", "Harness.NaN", "Harness.Shape"} |->
+          CASE p = "C16.ValueClass" ->
+                 Fails(LAMBDA i : ~TwinShape(i) \/ TwinOK(i, LAMBDA a, b : a.te = b.te /\ SameSet(a.hitb, b.hitb) /\ a.rt = b.rt))
+            [] p = "C16.Nearest" ->
                  Fails(LAMBDA i : Ran(i) /\ (~Finite(i) \/ ~FactsN(B[i].te) \/
                         (/\ Answered(i) /\ NearestOK(B[i].te, B[i].ri, B[i].rt)
                          /\ NoDup(B[i].vis) /\ Range(B[i].vis) \subseteq Range(B[i].hitb))))
             [] p = "Harness.NaN" -> Fails(Finite)
-            [] OTHER -> Fails(LAMBDA i : FactsN(B[i].te) /\ Ids(B[i].hitb))])
+            [] OTHER -> Fails(LAMBDA i : FactsN(B[i].te) /\ Ids(B[i].hitb) /\ TwinShape(i))])
     /\ UNCHANGED <<n, tree, ebs>> /\ l' = l + 1
 
 Scene ==
@@ -148,8 +186,10 @@ Returned(r) == r.st = "OK"
 Absent(r) == r.st = "NONE"
 Hit ==
     /\ Line.k = "hit"
-    /\ Report([p \in {"C16.ListHit", "C16.BvhHit", "C16.OctHit", "C16.MeshHit", "C16.MeshHit2", "Harness.NaN", "Harness.Shape"} |->
-          CASE p = "C16.ListHit" ->
+    /\ Report([p \in {"C16.ListHit", "C16.BvhHit", "C16.OctHit", "C16.MeshHit", "C16.MeshHit2", "C16.ValueClass", "Harness.NaN", "Harness.Shape"} |->
+          CASE p = "C16.ValueClass" ->
+                 Fails(LAMBDA i : ~TwinShape(i) \/ TwinOK(i, LAMBDA a, b : a.te = b.te /\ a.list = b.list /\ a.bvh = b.bvh /\ a.oct = b.oct))
+            [] p = "C16.ListHit" ->
                  Fails(LAMBDA i : ~Finite(i) \/ ~FactsN(B[i].te) \/ (Answered(i) /\ Returned(B[i].list) /\ HitOK(B[i].te, B[i].list)))
             [] p = "C16.BvhHit" ->
                  Fails(LAMBDA i : ~Finite(i) \/ ~FactsN(B[i].te) \/
@@ -168,10 +208,11 @@ Hit ==
                         (/\ Answered(i) /\ Returned(B[i].msh2) /\ HitOK(B[i].te, B[i].msh2)
                          /\ Returned(B[i].list) => SameHit(B[i].msh2, B[i].list)))
             [] p = "Harness.NaN" -> Fails(Finite)
-            [] OTHER -> Fails(LAMBDA i : FactsN(B[i].te))])
+            [] OTHER -> Fails(LAMBDA i : FactsN(B[i].te) /\ TwinShape(i))])
     /\ UNCHANGED <<n, tree, ebs>> /\ l' = l + 1
 
-Next == l <= Len(Trace) /\ (Tree \/ Closest \/ SetQuery("contain", "C16.Contain") \/ SetQuery("range", "C16.Range")
+Next == l <= Len(Trace) /\ (Tree \/ Closest \/ SetQuery("contain", "C16.Contain", "C16.ContainRef", PtBoxRef, 5)
+                            \/ SetQuery("range", "C16.Range", "C16.RangeRef", RangeBoxRef, 8)
                             \/ Ray \/ Near \/ Scene \/ Hit)
 Spec == Init /\ [][Next]_vars
 
